@@ -111,6 +111,13 @@ impl Parts {
         }
         Value::Object(m).to_string()
     }
+    /// JSON form with an extra (unknown to sd-jwt-rs) `header` member that itself carries a `disclosures`
+    /// list and a `kb_jwt`: nothing in it is part of the presentation.
+    pub fn to_json_with_header(&self, pool: &[String]) -> String {
+        let mut v: Value = serde_json::from_str(&self.to_json_styled(0, false)).unwrap();
+        v["header"] = json!({"kid": "k", "disclosures": pool, "kb_jwt": "eyJhbGciOiJub25lIn0.e30."});
+        v.to_string()
+    }
     pub fn to_json(&self) -> String {
         self.to_json_styled(0, false)
     }
